@@ -181,6 +181,11 @@ INDEX_CATALOGUE = [
     ((2, 3, 4), (-1, -1, -1), "element"), ((2, 3, 4), (SL(1, None), SL(None, -1), SL(None, None, -1)), "slices"),
     ((), Ellipsis, "0-d ellipsis"), ((), (), "0-d empty tuple"), ((), None, "0-d newaxis"),
     ((1, 3), (0, SL(None)), "size-1 dim"), ((3, 1), (SL(None), 0), "size-1 dim"),
+    # the same position selected once as k and once as k - n (repeats that differ as written)
+    ((4,), [1, -3], "aliasing signs"), ((4,), np.array([0, -4, 2, -2]), "aliasing signs"), ((3, 4), [1, -2], "aliasing signs rows"),
+    ((3, 4), (SL(None, None, 2), [0, 2, -4]), "step, aliasing signs"), ((3, 4), ([0, -3], [-1, 3]), "aliasing sign pairs"),
+    ((2, 3, 4), (Ellipsis, None, [3, -1]), "ellipsis,newaxis,aliasing signs"), ((2, 3, 4), ([1, -1], SL(None), [0, -4]), "separated aliasing signs"),
+    ((4,), [-1, -1], "repeated negative"), ((3, 4), (np.array([True, False, True]), [1, -3]), "mask with aliasing signs"),
 ]
 
 
@@ -200,17 +205,11 @@ def index_repr(ix):
     return one(ix)
 
 
-def has_repeats(ix):
-    items = ix if isinstance(ix, tuple) else (ix,)
-    adv = [np.asarray(i) for i in items if isinstance(i, (list, np.ndarray)) and np.asarray(i).dtype != bool]
-    if not adv:
-        return False
-    if len(adv) == 1:
-        flat = adv[0].ravel().tolist()
-        return len(set(flat)) < len(flat)
-    b = np.broadcast_arrays(*adv)
-    tup = list(zip(*[x.ravel().tolist() for x in b]))
-    return len(set(tup)) < len(tup)
+def has_repeats(ix, shape):
+    """does the index expression select some element more than once (however the indices are written)?"""
+    sel = np.arange(int(np.prod(shape)) if shape else 1).reshape(shape)[ix]
+    flat = np.asarray(sel).ravel().tolist()
+    return len(set(flat)) < len(flat)
 
 
 def slice_cases(tier):
@@ -218,7 +217,7 @@ def slice_cases(tier):
     fns = (FN + "slice", K_ + "slice_forward", K_ + "slice_backward", "synapgrad.tensor.Tensor.__getitem__")
     for shape, ix, tag in INDEX_CATALOGUE:
         cases.append(VCase("Tensor.__getitem__", {"op": "Tensor.__getitem__", "shape": shape, "index": index_repr(ix), "kind": tag,
-                                                  "repeated_indices": has_repeats(ix)},
+                                                  "repeated_indices": has_repeats(ix, shape)},
                            [Leaf("a", shape)], lambda T, K, ix=ix: T["a"][ix], functions=fns))
     return cases
 
@@ -325,6 +324,14 @@ def reduce_cases(tier):
                                        max_paths=800))
         cases.append(VCase("Tensor." + op, {"op": "Tensor." + op, "shape": (2, 3), "dim": None}, [Leaf("a", (2, 3))],
                            lambda T, K, op=op: getattr(T["a"], op)(), functions=("synapgrad.tensor.Tensor." + op,)))
+        # ties: the reduced tensor repeats its operand's elements, so equal extrema exist on every path; any valid subgradient gives the
+        # operand the upstream gradient of each reduced position exactly once
+        for rep, dim in [([0, 0, 1], None), ([0, 0, 1], 0), ([1, 0, 0, 1], -1), ([0, 0, 0], 0)]:
+            nsrc = max(rep) + 1
+            cases.append(VCase("functional." + op, {"op": "functional." + op, "ties": "operand repeated as %s" % rep, "dim": dim, "dim_kind": "none" if dim is None else "int"},
+                               [Leaf("a", (nsrc,))], lambda T, K, fn=fn, rep=rep, dim=dim: fn(T["a"][rep], dim), functions=fns, max_paths=800))
+        cases.append(VCase("functional." + op, {"op": "functional." + op, "ties": "rows repeated [0, 0, 1]", "dim": 0, "dim_kind": "int"},
+                           [Leaf("a", (2, 2))], lambda T, K, fn=fn: fn(T["a"][[0, 0, 1]], 0), functions=fns, max_paths=800))
     return cases
 
 
@@ -435,8 +442,33 @@ def _move_self_inverse(n, s, d):
         return None
 
 
+def layout_variants(cases, tier):
+    """The same operations on operands whose arrays are not C-contiguous (Fortran order, or a strided view of a larger buffer): the
+    forward value and every VJP must not depend on memory layout. thorough: every case with an operand of rank >= 2 in both layouts;
+    quick: per op, a subset in which every value of every configuration field appears at least once (each-value coverage)."""
+    import copy
+    out = []
+    seen = {}
+    for i, c in enumerate(cases):
+        if c.expect != "vjp" or not any(len(l.shape) >= 2 for l in c.leaves):
+            continue
+        if tier != "thorough":
+            s = seen.setdefault(c.name, set())
+            new = {(k, repr(v)) for k, v in c.key.items()} - s
+            if not new:
+                continue
+            s |= new
+        for lay in (("F", "strided") if tier == "thorough" else (("F",) if i % 3 else ("strided",))):
+            v = copy.copy(c)
+            v.leaves = [Leaf(l.name, l.shape, l.domain, l.requires_grad, lay) for l in c.leaves]
+            v.key = dict(c.key, operand_layout={"F": "Fortran-ordered", "strided": "strided view of a larger buffer"}[lay])
+            out.append(v)
+    return out
+
+
 def all_cases(tier="quick"):
     cases = []
     for g in (binary_cases, matmul_cases, unary_cases, slice_cases, join_cases, reduce_cases, view_cases):
         cases.extend(g(tier))
+    cases.extend(layout_variants(cases, tier))
     return cases
